@@ -179,6 +179,16 @@ def judge(ctx, cspec, aspec, tag):
         so3 = cases.build_alignment(cspec, asp, continuum=other, soft=True, slot_order=order)
         results["Alignment(bound elsewhere).check(continuum)"] = (outcome(lambda: al3.check(continuum)), exp_part)
         results["SoftAlignment(bound elsewhere).check(continuum)"] = (outcome(lambda: so3.check(continuum)), exp_cover)
+        if len(names) >= 2 and (exp_part or exp_cover):
+            # checked against the continuum of only SOME of its annotators (the other slots belong to annotators that
+            # continuum does not know): a partition / cover of the whole is one of the part
+            keep = sorted(ctx.rng.sample(names, ctx.rng.randint(1, len(names) - 1)))
+            if any(cspec["ann"][a] for a in keep):
+                part = cases.build_continuum({"ann": {a: cspec["ann"][a] for a in keep}})
+                if exp_part:
+                    results["Alignment.check(continuum of some annotators)"] = (outcome(lambda: al2.check(part)), True)
+                if exp_cover:
+                    results["SoftAlignment.check(continuum of some annotators)"] = (outcome(lambda: so2.check(part)), True)
         results["Alignment(check_validity=True)"] = (
             outcome(lambda: cases.build_alignment(cspec, asp, continuum=continuum, slot_order=order, check=True)), exp_part)
         results["SoftAlignment(check_validity=True)"] = (
